@@ -33,11 +33,79 @@ func c17Vars(r rng, nodeCount int) []VarSpec {
 		18: {Kind: "coll", Items: []VarSpec{node(), node()}},
 		19: {Kind: "bad", Bad: "float"},
 		20: str("beta"),
+		// seeded nested collections: valid ones, and ones with exactly one unsupported leaf at a seeded position
+		21: randTree(r, nodeCount, false),
+		22: randTree(r, nodeCount, false),
+		23: randTree(r, nodeCount, false),
+		24: randTree(r, nodeCount, true),
+		25: randTree(r, nodeCount, true),
+		26: randTree(r, nodeCount, true),
+		27: randTree(r, nodeCount, true),
 	}
 }
 
-var c17ValidVars = []int{0, 1, 2, 3, 4, 5, 6, 7, 8, 14, 15, 17, 18, 20}
-var c17BadVars = []int{9, 10, 11, 12, 13, 16, 19}
+// randTree builds a collection nested up to three levels with seeded shape (siblings, empty
+// nested collections, leaves of several kinds); withBad replaces one seeded leaf by a value
+// that is neither a System value nor a FHIR element.
+func randTree(r rng, nodeCount int, withBad bool) VarSpec {
+	var leaves []*VarSpec
+	var build func(depth int) VarSpec
+	build = func(depth int) VarSpec {
+		v := VarSpec{Kind: "coll"}
+		n := r.n(4)
+		if depth == 0 {
+			n = 1 + r.n(3)
+		}
+		for i := 0; i < n; i++ {
+			if depth < 2 && r.p(0.5) {
+				v.Items = append(v.Items, build(depth+1))
+			} else {
+				switch r.n(3) {
+				case 0:
+					v.Items = append(v.Items, VarSpec{Kind: "sys", Sys: &SysVal{"String", pick(r, strVocab)}})
+				case 1:
+					v.Items = append(v.Items, VarSpec{Kind: "sys", Sys: &SysVal{"Integer", fmt.Sprint(r.n(100))}})
+				default:
+					v.Items = append(v.Items, VarSpec{Kind: "node", Res: 0, Node: r.n(nodeCount)})
+				}
+			}
+		}
+		return v
+	}
+	t := build(0)
+	if !withBad {
+		return t
+	}
+	var collect func(v *VarSpec)
+	collect = func(v *VarSpec) {
+		for i := range v.Items {
+			if v.Items[i].Kind == "coll" {
+				collect(&v.Items[i])
+			} else {
+				leaves = append(leaves, &v.Items[i])
+			}
+		}
+	}
+	collect(&t)
+	bad := VarSpec{Kind: "bad", Bad: pick(r, []string{"int", "string", "struct", "ptr", "slice", "float"})}
+	if r.p(0.15) {
+		bad = VarSpec{Kind: "nil"}
+	}
+	if len(leaves) == 0 {
+		t.Items = append(t.Items, bad)
+		return t
+	}
+	// bias toward late leaves: an unsupported value after valid siblings is the shape a lazy check misses
+	k := r.n(len(leaves))
+	if r.p(0.5) {
+		k = len(leaves) - 1
+	}
+	*leaves[k] = bad
+	return t
+}
+
+var c17ValidVars = []int{0, 1, 2, 3, 4, 5, 6, 7, 8, 14, 15, 17, 18, 20, 21, 22, 23}
+var c17BadVars = []int{9, 10, 11, 12, 13, 16, 19, 24, 25, 26, 27}
 
 // the alphabets of the exhaustively enumerated option lists (length <= 3)
 var c17EvalAlphabet = []EOpt{
